@@ -25,6 +25,7 @@ class Term:
 _table = {}
 _next_id = [0]
 _ext_memo = {}
+_eq_memo = {}
 
 
 def reset():
@@ -32,6 +33,7 @@ def reset():
     _next_id[0] = 0
     _assume_memo.clear()
     _ext_memo.clear()
+    _eq_memo.clear()
 
 
 def n_terms():
@@ -369,7 +371,13 @@ def eq(a, b):
         if b.w == 1:
             return b if a.val else not_(b)
         if b.op == "ite":
-            return ite(b.args[0], eq(a, b.args[1]), eq(a, b.args[2]))
+            # memoised: the if-then-else structure is a DAG, a plain recursion would be exponential
+            key = (a.val, b.id)
+            r = _eq_memo.get(key)
+            if r is None:
+                r = ite(b.args[0], eq(a, b.args[1]), eq(a, b.args[2]))
+                _eq_memo[key] = r
+            return r
         if b.op == "cat":
             pos = b.w
             cs = []
@@ -764,8 +772,12 @@ class Solver:
                    "--tlimit-per=%d" % (timeout_s * 1000)]
         else:
             raise ValueError(kind)
+        # no preexec_fn: forking Python code in a process that has threads (watchdog timers) can deadlock;
+        # setpriv / prlimit give the same protection (die with the parent, capped address space)
+        gb = int(os.environ.get("VERIF_SOLVER_MEM_GB", "8"))
+        cmd = ["setpriv", "--pdeathsig", "KILL", "prlimit", "--as=%d" % (gb << 30)] + cmd
         self.p = subprocess.Popen(cmd, stdin=subprocess.PIPE, stdout=subprocess.PIPE,
-                                  stderr=subprocess.STDOUT, text=True, bufsize=1, preexec_fn=child_limits)
+                                  stderr=subprocess.STDOUT, text=True, bufsize=1)
         self.declared = {}
         self.abstract_tried = 0
         self.abstract_closed = 0
